@@ -20,7 +20,7 @@ cbor_item_t *cbor_new_definite_array(size_t size)
 __CPROVER_requires(ALLOC_MODEL_BOUND)
 __CPROVER_assigns(ALLOC_GHOSTS)
 __CPROVER_ensures(g_realloc_calls == OLD(g_realloc_calls))
-__CPROVER_ensures(RET == NULL ==> (g_live == OLD(g_live) && (g_refused || __CPROVER_overflow_mult(size, sizeof(cbor_item_t *)))))
+__CPROVER_ensures(RET == NULL ==> (g_live == OLD(g_live) && (g_refused || size >= ((size_t)1 << 60))))
 __CPROVER_ensures(RET == NULL || (__CPROVER_is_fresh(RET, sizeof(cbor_item_t)) && RET->refcount == 1 &&
                                   RET->type == CBOR_TYPE_ARRAY && AR_META(RET).type == _CBOR_METADATA_DEFINITE &&
                                   AR_META(RET).allocated == size && AR_META(RET).end_ptr == 0 &&
@@ -109,7 +109,7 @@ cbor_item_t *cbor_new_definite_map(size_t size)
 __CPROVER_requires(ALLOC_MODEL_BOUND)
 __CPROVER_assigns(ALLOC_GHOSTS)
 __CPROVER_ensures(g_realloc_calls == OLD(g_realloc_calls))
-__CPROVER_ensures(RET == NULL ==> (g_live == OLD(g_live) && (g_refused || __CPROVER_overflow_mult(size, sizeof(struct cbor_pair)))))
+__CPROVER_ensures(RET == NULL ==> (g_live == OLD(g_live) && (g_refused || size >= ((size_t)1 << 59))))
 __CPROVER_ensures(RET == NULL || (__CPROVER_is_fresh(RET, sizeof(cbor_item_t)) && RET->refcount == 1 &&
                                   RET->type == CBOR_TYPE_MAP && MP_META(RET).type == _CBOR_METADATA_DEFINITE &&
                                   MP_META(RET).allocated == size && MP_META(RET).end_ptr == 0 &&
